@@ -19,6 +19,8 @@ NEGOTIATED = {1: "client built WithVersion(1.0.1), no negotiation", 2: "default 
               3: "default client, reader at 1.0.1 / max 1.1, SET_PROTOCOL_VERSION to 1.1",
               4: "default client, reader answers the version query with ERROR_MESSAGE VersionUnsupported (falls back to 1.0.1)"}
 NV_MODEL = {1: 1, 2: 2, 3: 2, 4: 1}     # the version number the connection ends up with
+NOWAIT_TYPES = [1, 2, 3, 20, 21, 22, 23, 24, 25, 26, 40, 41, 42, 43, 44, 1023]      # request types sent with SendNoWait (not CLOSE_CONNECTION)
+WIRE_N0 = 1000       # id of the first message of a history in the model (ids are the positions of the writes)
 ZERO = "0 - - -"
 SENTINEL = "48879 73656e74696e656c 7.8 9.10.11.12"     # what the harness pre-fills in mode s
 BATCH = 300000
@@ -49,9 +51,13 @@ def prop_check(exp, act, code, scripted, go):
     if br == "errmsg" and cls == "nil":
         return ("errmsg-not-error", "ERROR_MESSAGE reply reported as success")
     if code == 0:
-        if br == "expected" and cls != "nil" and exp != ERRMSG:
-            return ("success-reported-as-error", "expected type with status Success reported as error")
-        return None    # ERROR_MESSAGE with Success: only non-nil demanded (DESIGN 7); exp=act=100: unconstrained
+        if br == "expected" and cls != "nil":
+            # also when the caller's expected type IS ERROR_MESSAGE (decision 2, revised in round 7): sentence 1 is an "exactly when"
+            # and the reply has the expected type and carries Success; sentence 2's "or an ERROR_MESSAGE reply" is the ERROR_MESSAGE
+            # that arrives INSTEAD of the expected type. This is also what C12_success_iff_general states for every expected type.
+            return ("success-reported-as-error" + (":expecting-error-message" if exp == ERRMSG else ""),
+                    "expected type with status Success reported as error" + (" (the caller expects an ERROR_MESSAGE)" if exp == ERRMSG else ""))
+        return None    # an ERROR_MESSAGE with Success answering a request that expects another type: only non-nil demanded (DESIGN 7)
     # code != 0, expected type or ERROR_MESSAGE: error must expose code, description, nested detail
     if cls == "nil":
         return ("nonzero-status-not-error:%s" % br, "non-Success status reported as success")
@@ -374,6 +380,7 @@ class Gen:
 
         def history(n):
             steps, exp, outstanding, gone, started, nforeign = [], {}, [], [], 0, 0
+            nw, nw_open = [], []      # SendNoWait messages sent / not yet answered by the reader
             budget = 6 + 4 * n
             while started < n or outstanding:
                 budget -= 1
@@ -386,6 +393,12 @@ class Gen:
                     acts += ["stale"] * 3
                 if budget > 0:
                     acts += ["foreign"]
+                    if len(nw) < 5:
+                        acts += ["nowait"] * 2
+                    if nw_open:
+                        acts += ["nwanswer"] * 3
+                    elif nw:
+                        acts += ["nwanswer"]
                 act = rnd.choice(acts)
                 ver = rnd.randrange(8)
                 # the payload of a frame that is not the own reply is laid out as what a waiting caller expects, so that a
@@ -418,6 +431,15 @@ class Gen:
                 elif act == "ri":
                     k = rnd.choice(outstanding)
                     steps.append(frame(ver, rnd.choice(READER_INITIATED), "k%d" % k, exp[k]))
+                elif act == "nowait":      # a fire-and-forget message; a real reader answers it all the same
+                    k = 100 + len(nw)
+                    nw.append(k)
+                    nw_open.append(k)
+                    steps.append(("N", k, rnd.choice(NOWAIT_TYPES)))
+                elif act == "nwanswer":
+                    k = nw_open.pop(rnd.randrange(len(nw_open))) if nw_open else rnd.choice(nw)
+                    typ = rnd.choice([lay, lay, ERRMSG, rnd.choice(REPLY_TYPES)])
+                    steps.append(frame(ver, typ, "k%d" % k, lay, success=None if typ != ERRMSG else False))
             return steps
         for nv in (1, 2, 3, 4):
             hs = []
@@ -434,9 +456,56 @@ class Gen:
                                    frame(rnd.randrange(8), e1, "k0", e1, success=own_ok)])
                         hs.append([("S", 0, e0), frame(rnd.randrange(8), e0, "k0", e0), ("S", 1, e1),
                                    frame(rnd.randrange(8), t, "k0", e1, success=False if t == ERRMSG else None), frame(rnd.randrange(8), e1, "k1", e1, success=own_ok)])
+            # (d) SendNoWait messages before / between requests, answered by the reader while a request is outstanding: the answer to
+            #     a fire-and-forget message (Success or failure, same layout as the awaited reply) is not the request's reply
+            for n_before in range(0, 4):
+                for n_between in range(0, 3):
+                    if n_before + n_between == 0:
+                        continue
+                    for own_ok in (True, False):
+                        e0, e1 = rnd.choice(st), rnd.choice(st)
+                        h = [("N", 100 + i, rnd.choice(NOWAIT_TYPES)) for i in range(n_before)]
+                        if n_between:
+                            h += [("S", 0, e0), frame(rnd.randrange(8), e0, "k0", e0)]
+                            h += [("N", 100 + n_before + i, rnd.choice(NOWAIT_TYPES)) for i in range(n_between)]
+                        kk = 1 if n_between else 0
+                        h.append(("S", kk, e1))
+                        for i in range(n_before + n_between):      # the reader's answers to the fire-and-forget messages: the opposite of the own reply
+                            h.append(frame(rnd.randrange(8), e1, "k%d" % (100 + i), e1, success=not own_ok))
+                        h.append(frame(rnd.randrange(8), e1, "k%d" % kk, e1, success=own_ok))
+                        hs.append([("F",)] + h)      # on a fresh connection: which ids collide depends on how many messages went before
+                        if n_between == 0:
+                            hs.append(h)
             for i in range(900 if self.thorough else 220):
-                hs.append(history(1 + i % 4))
+                h = history(1 + i % 4)
+                hs.append(([("F",)] if i % 3 == 0 else []) + h)
             out[nv] = hs
+        return out
+
+    def build_cuts(self):
+        """the awaited reply does not arrive completely: the frame header announces the whole payload, the connection ends after
+        `cut` bytes of it — at EVERY offset (inside the LLRPStatus header, the code, the description, nested FieldError /
+        ParameterError) — by an orderly close, a TCP reset, or the reader going silent until the Client's read deadline.
+        Each case several times (what the caller sees first when the connection dies is a race).
+        (exp, act, code, desc, fe, pe, mode, cut, end); the payload length is reported by the harness"""
+        rnd, out = self.rnd, []
+        shapes = [("-", "-", "-", 8), ("6f6f7073", "-", "-", 12), ("-", "1.300", "-", 16), ("6e6f", "2.300", "137.201.1.301", 34)]
+        reps = 6 if self.thorough else 4
+        for e in (30, 31, 56, rnd.choice([t for t in self.stypes if t not in (30, 31, 56, ERRMSG)])):
+            for a in (e, ERRMSG):
+                lead = 2 if (e == 56 and a == e) else 0
+                for d_, f_, p_, ln in shapes:
+                    for c in (101, 0, rnd.randrange(1, 65536)):
+                        for cut in range(0, ln + lead):
+                            for end in ("eof", "reset"):
+                                if end == "reset" and (e != 30 or cut % 2):
+                                    continue
+                                for _ in range(reps if (ln == 8 or cut in (4, 5, 6, 7)) else 1):
+                                    out.append((e, a, c, d_, f_, p_, "z", cut, end))
+        for cut in (0, 3, 4, 5, 6, 7):
+            for c in (101, 0):
+                out.append((30, 30, c, "-", "-", "-", "z", cut, "deadline"))
+        out.append((30, ERRMSG, 101, "6f", "-", "-", "z", 6, "deadline"))
         return out
 
     def build_driver(self):
@@ -678,6 +747,7 @@ def run(tier, seed, replay=None):
         do_dt = False
         undec = [tuple(c[1:4]) for c in rp.get("cases", []) if len(c) == 4 and c[0] == "y"]
         drv = [tuple(c[1:]) for c in rp.get("cases", []) if len(c) >= 7 and c[0] == "d"]
+        cuts = [tuple(c[1:]) for c in rp.get("cases", []) if len(c) == 10 and c[0] == "k"] * 12
         hists = {}
         for c in rp.get("cases", []):
             if len(c) == 3 and c[0] == "h":
@@ -696,6 +766,7 @@ def run(tier, seed, replay=None):
         undec = gen.build_undecodable()
         hists = gen.build_histories()
         drv = gen.build_driver()
+        cuts = gen.build_cuts()
         do_dt = True
 
     fails = {}            # signature -> [count, text, found_input, [cases]]
@@ -925,28 +996,40 @@ def run(tier, seed, replay=None):
         greq, oreq, own_all = [], [], []
         for h in hl:
             gs, os_, own, exp, aband = [], [], {}, {}, set()
+            wid, nwritten = {}, 0          # message (caller or SendNoWait) -> its id in the model = position of its write
             for st in h:
+                if st[0] == "F":
+                    continue
                 if st[0] == "S":
                     gs.append("S:%d:%d:z" % (st[1], st[2]))
-                    os_.append("S:%d:%d" % (st[1], st[2]))
+                    os_.append("Q:%d" % st[2])
+                    wid[st[1]] = WIRE_N0 + nwritten
+                    nwritten += 1
                     exp[st[1]] = st[2]
+                elif st[0] == "N":
+                    gs.append("N:%d:%d" % (st[1], st[2]))
+                    os_.append("W")
+                    wid[st[1]] = WIRE_N0 + nwritten
+                    nwritten += 1
+                    hist_stats["nowait_messages"] = hist_stats.get("nowait_messages", 0) + 1
                 elif st[0] == "A":
                     gs.append("A:%d" % st[1])
-                    os_.append("A:%d" % st[1])
+                    os_.append("A:%d" % wid[st[1]])
                     aband.add(st[1])
                 else:
                     _, ver, typ, idspec, lay, c, d, f, p_, fl = st
                     gs.append("R:%d:%d:%s:%d:%d:%s:%s:%s:%s" % (ver, typ, idspec, lay, c, d, f, p_, fl))
-                    oid = int(idspec[1:]) if idspec[0] == "k" else {"f": 100000, "m": 5000000000, "z": 99999}[idspec[0]] + int(idspec[1:])
+                    n_ = int(idspec[1:])
+                    oid = {"k": lambda: wid[n_], "f": lambda: 5000000 + n_, "m": lambda: WIRE_N0 + nwritten - 1 + n_, "z": lambda: 0}[idspec[0]]()
                     os_.append("R:%d:%d:%d:%d:%s:%s:%s" % (ver, typ, oid, c, d, f, p_))
                     k = int(idspec[1:]) if idspec[0] == "k" else None
                     if k is not None and k in exp and k not in own and k not in aband and typ not in READER_INITIATED:
                         own[k] = st
                     else:
                         hist_stats["frames_not_own_reply"] += 1
-            greq.append("h " + " ".join(gs))
-            oreq.append("h %d " % NV_MODEL[nv] + " ".join(os_))
-            own_all.append((exp, own, aband))
+            greq.append("h " + ("F " if (h and h[0] == ("F",)) else "") + " ".join(gs))
+            oreq.append("hw %d %d " % (NV_MODEL[nv], WIRE_N0) + " ".join(os_))
+            own_all.append((exp, own, aband, wid))
         rc, gl, glog = vlib.run_harness(exe, "TestVerifC12", "cfg none\nnv %d\n" % nv + "\n".join(greq) + "\n", timeout=900, tag="h%d" % nv)
         gl = gl[2:]
         orc, oout = vlib.run_oracle("c12", "\n".join(oreq) + "\n", timeout=600)
@@ -956,7 +1039,7 @@ def run(tier, seed, replay=None):
                 rc, orc, len(gl), len(hl), glog[-1500:]), dict(kind="harness", log=glog[-3000:]), False)
             return res.finish()
         hkeys = set()
-        for h, (exp, own, aband), g, o, gline in zip(hl, own_all, gl, ol, greq):
+        for h, (exp, own, aband, wid), g, o, gline in zip(hl, own_all, gl, ol, greq):
             answers = g.split(" | ")
             model = dict(x.split("=", 1) for x in o.split(" | ") if "=" in x)
             rcase = ["h", nv, [list(x) for x in h]]
@@ -972,7 +1055,7 @@ def run(tier, seed, replay=None):
                 samples.append(dict(scenario="exchange history", negotiated=NEGOTIATED[nv], steps=gline, go=answers, model=o))
             for k in sorted(exp):
                 ans, gt = answers[k], answers[k].split(" ")
-                m = model.get(str(k), "")
+                m = model.get(str(wid[k]), "")
                 evals += 1
                 hist_stats["callers"] += 1
                 what = "history [%s] (%s): caller %d expecting type %d" % (gline[2:400], NEGOTIATED[nv], k, exp[k])
@@ -1004,6 +1087,55 @@ def run(tier, seed, replay=None):
                     elif gt[0] != "abandoned" or m != "abandoned":
                         fail("model-differs:history", what + ", abandoned before any reply to it arrived: Go [%s], model [%s]" % (ans[:300], m[:300]),
                              False, rcase, g[:600], o[:300])
+
+    # replies that do not arrive completely: such an exchange has no reply — it must not report success for a reply that carried a
+    # failure, and must not expose a status / description / details the reader did not send
+    cut_stats = dict(exchanges=0, by_end={}, outcomes={})
+    if cuts:
+        greq = ["k %d %d %d %s %s %s %s %d %s" % c for c in cuts]
+        rc, gl, glog = vlib.run_harness(exe, "TestVerifC12", "cfg none\nnv 1\n" + "\n".join(greq) + "\n", timeout=1200, tag="k")
+        gl = gl[2:]
+        orc, oout = vlib.run_oracle("c12", "\n".join("hw 1 %d Q:%d A:%d" % (WIRE_N0, c[0], WIRE_N0) for c in cuts) + "\n", timeout=600)
+        ol = oout.split("\n")
+        if rc != 0 or len(gl) != len(cuts) or orc != 0 or len(ol) < len(cuts):
+            res.violation("harness-run", "Go harness / oracle failed on the cut replies (rc=%s/%s, %d of %d answers): %s" % (
+                rc, orc, len(gl), len(cuts), glog[-1500:]), dict(kind="harness", log=glog[-3000:]), False)
+            return res.finish()
+        ckeys = set()
+        for c, g, o in zip(cuts, gl, ol):
+            e, a, code, d, f, p, mode, cut, end = c
+            gt = g.split(" ")
+            case = ["k"] + list(c)
+            br = branch_of(e, a)
+            evals += 1
+            cut_stats["exchanges"] += 1
+            cut_stats["by_end"][end] = cut_stats["by_end"].get(end, 0) + 1
+            if c not in ckeys:
+                ckeys.add(c)
+                nontriv += 1
+            dist["cut-reply:" + br] = dist.get("cut-reply:" + br, 0) + 1
+            scripted = "%d %s %s %s" % (code, d, f, p)
+            if len(gt) != 14:
+                fail("harness-answer", "unexpected harness answer: " + g[:200], False, case, g[:300], o[:300])
+                continue
+            if cut >= int(gt[13]):
+                continue          # not cut at all
+            cut_stats["outcomes"][gt[0]] = cut_stats["outcomes"].get(gt[0], 0) + 1
+            what = "SendFor expecting type %d; the reply (type %d, status [%s], %s payload bytes) is cut after %d payload bytes, then the connection ends (%s)" % (
+                e, a, scripted[:200], gt[13], cut, {"eof": "orderly close", "reset": "TCP reset", "deadline": "reader silent, read deadline"}[end])
+            if gt[0] in ("panic", "hung"):
+                fail("no-outcome:cut-reply:" + gt[0], what + ": SendFor did not return an outcome (%s)" % gt[0], True, case, g[:300], o[:300])
+            elif gt[0] == "nil" and (code != 0 or br != "expected"):
+                fail("cut-reply:nonzero-status-not-error:" + br if br != "other" else "cut-reply:mismatch-not-error",
+                     what + ": reported as success, although the reader's reply carried a failure — the bytes that never arrived were taken as zeros", True, case, g[:300], o[:300])
+            elif gt[0] == "status" and " ".join(gt[1:5]) != scripted and br != "other":
+                fail("cut-reply:status-not-sent-exposed:" + br, what + ": the error exposes a status [%s] the reader did not send" % " ".join(gt[1:5])[:200], True, case, g[:300], o[:300])
+            elif render_check(br, gt[:13]):
+                bad = render_check(br, gt[:13])
+                fail("cut-reply:" + bad[0], what + ": " + bad[1], True, case, g[:300], o[:300])
+            elif gt[0] not in ("closed", "timeout") or "abandoned" not in o:
+                # e.g. success for a cut Success reply whose missing tail happens to be zeros, or the complete status exposed
+                fail("model-differs:cut-reply:" + br, what + ": Go [%s]; the model has no reply for this exchange [%s]" % (g[:300], o[:200]), False, case, g[:300], o[:300])
 
     # the device service's exchanges (internal/driver): TrySend, HandleReadCommands, HandleWriteCommands, onConnect
     drv_stats = {}
@@ -1173,10 +1305,12 @@ def run(tier, seed, replay=None):
                                        "negotiated (1 WithVersion(1.0.1); 2 reader at 1.1; 3 SET_PROTOCOL_VERSION to 1.1; 4 version query refused); a mode letter V<d> = "
                                        "the reply's header carries LLRP version d; ['dt', code] = text of a bare status code; ['y', exp, act, payload hex] = reply whose "
                                        "payload does not decode; ['h', n, steps] = exchange history on one Client: ('S', caller, expected type) request started, "
+                                       "('F',) = on a fresh connection; ('N', message, type) sent with SendNoWait (message numbers from 100; the reader may answer it: id k<message>), "
                                        "('A', caller) its context cancelled, ('R', header version, type, id (k<caller> | f<unused id> | m<largest id so far + n> | z0 = id 0, used up by a warm-up exchange), layout, code, desc, fe, pe, order "
                                        "flags) frame written by the reader; ['d', t|r|w|o, ...] = exchange of the device service (internal/driver): t = LLRPDevice.TrySend "
                                        "[exp, act, status...], r / w = Driver.HandleReadCommands / HandleWriteCommands [resource or command, exp, act, status...], "
-                                       "o = the device's own exchange after connecting [act, status...]; mode letter D = the reader drops the connection once first"),
+                                       "o = the device's own exchange after connecting [act, status...]; mode letter D = the reader drops the connection once first; "
+                                       "['k', exp, act, code, desc, fe, pe, mode, cut, eof|reset|deadline] = the reply is cut after `cut` payload bytes and the connection ends"),
                       found)
 
     res.coverage.update(
@@ -1196,7 +1330,7 @@ def run(tier, seed, replay=None):
         exhaustive=bool(thorough), exhaustive_note="thorough: 65536 codes x 19 status-bearing types x {expected, ERROR_MESSAGE}; "
                                                    "descriptions and nested shapes are sampled (unbounded space; covered by the proof)",
         reader_initiated_frames=unsol_seen, concurrent=conc_seen, handler_configurations=cfg_stats, rendering=render_stats,
-        status_code_texts=dt_stats, internal_exchanges=int_stats, undecodable_replies=undec_stats, exchange_histories=hist_stats, device_service_exchanges=drv_stats,
+        status_code_texts=dt_stats, internal_exchanges=int_stats, undecodable_replies=undec_stats, cut_replies=cut_stats, exchange_histories=hist_stats, device_service_exchanges=drv_stats,
         header_versions="all 8 values of the reply's header version x 4 ways of negotiating the connection's version, on the expected / "
                         "ERROR_MESSAGE / unrelated-type branches (kind 'versions'), on Connect's and Shutdown's own exchanges, in the concurrent rounds and "
                         "in every frame of the exchange histories", type_pairs=len(seen_pairs), status_types=stypes, max_nested_depth=seen_depth, max_description_bytes=seen_desc_len,
